@@ -63,8 +63,60 @@ Proof.
   destruct (key_eqb k' k2); cbn; [auto|]. rewrite E. auto.
 Qed.
 
-(* propositional forms of the boolean checkers *)
-Definition keys_nodup (l : list (key * nat)) : Prop := NoDup (map fst l).
+Lemma map_remove_assoc_in {B} (f : key * nat -> B) k l y :
+  In y (map f (remove_assoc k l)) -> In y (map f l).
+Proof.
+  induction l as [|[k2 c2] r IH]; cbn; [tauto|].
+  destruct (key_eqb k k2); cbn; [auto|]. intros [H|H]; auto.
+Qed.
+Lemma nodup_map_remove_assoc {B} (f : key * nat -> B) k l :
+  NoDup (map f l) -> NoDup (map f (remove_assoc k l)).
+Proof.
+  induction l as [|[k2 c2] r IH]; cbn; [auto|]. intros H. inversion H; subst.
+  destruct (key_eqb k k2); cbn; [auto|]. constructor; [|auto].
+  intros Hin. apply H2. eapply map_remove_assoc_in; eassumption.
+Qed.
+Lemma assoc_none_keys k l : assoc k l = None -> ~ In k (map fst l).
+Proof.
+  intros H Hin. apply in_map_iff in Hin as [[k' c] [E Hin]]. cbn in E; subst.
+  exact (assoc_none_notin _ _ H _ Hin).
+Qed.
+Lemma in_ins_sorted x y l : In x (ins_sorted y l) -> x = y \/ In x l.
+Proof.
+  induction l as [|z r IH]; cbn; [intros [H|[]]; auto|].
+  destruct (Nat.leb y z); cbn; intros [H|H]; auto. destruct (IH H); auto.
+Qed.
+Lemma in_sort_ids x l : In x (sort_ids l) -> In x l.
+Proof.
+  induction l as [|y r IH]; cbn; [tauto|]. intros H. apply in_ins_sorted in H as [H|H]; auto.
+Qed.
+Lemma lookup_in g conns k c fwd : lookup g conns k = Some (c, fwd) -> In c (map snd conns).
+Proof.
+  unfold lookup. destruct (assoc k conns) as [c1|] eqn:E1.
+  - intros H; inversion H; subst. apply assoc_in in E1. apply in_map_iff. exists (k, c); auto.
+  - destruct (is_rsm g); [|discriminate]. destruct (assoc (key_rev k) conns) as [c1|] eqn:E2; [|discriminate].
+    intros H; inversion H; subst. apply assoc_in in E2. apply in_map_iff. exists (key_rev k, c); auto.
+Qed.
+Lemma lookup_none g conns k : lookup g conns k = None ->
+  assoc k conns = None /\ (is_rsm g = true -> assoc (key_rev k) conns = None).
+Proof.
+  unfold lookup. destruct (assoc k conns); [discriminate|]. destruct (is_rsm g).
+  - destruct (assoc (key_rev k) conns); [discriminate|]. auto.
+  - intros _. split; [reflexivity|discriminate].
+Qed.
+
+Definition rest_of_pc (p : pc) : list nat :=
+  match p with
+  | PWant c (WFlush r) => c :: r
+  | PWant c (WPkt _ _) => [c]
+  | PRemove c (KFlush r) => c :: r
+  | PRemove c KNext => [c]
+  | _ => []
+  end.
+Lemma rest_next_pc prog : rest_of_pc (next_pc prog) = [].
+Proof. destruct prog; reflexivity. Qed.
+Lemma rest_cont_flush r prog x : In x (rest_of_pc (cont_flush r prog)) -> In x r.
+Proof. destruct r; cbn; [rewrite rest_next_pc; tauto|auto]. Qed.
 
 Section Proofs.
 Variable cstate : Type.
@@ -112,6 +164,7 @@ Inductive step_spec (g : config) (s : State) (t : nat) (s' : State) : Prop :=
     s_conns s' = s_conns s -> s_free s' = s_free s -> s_objs s' = s_objs s -> s_nsid s' = s_nsid s ->
     s_kept s' = s_kept s -> s_log s' = s_log s -> s_thr s' = upd (s_thr s) t th' ->
     not_remove (t_pc th') -> t_pc th' <> PPanic -> not_remove (t_pc (thr s t)) ->
+    (forall p, t_pc (thr s t) <> PMiss p) ->
     step_spec g s t s'
 | SpMiss p th' c free' objs0 :
     t_pc (thr s t) = PMiss p -> pop s = (c, free', objs0) ->
@@ -161,9 +214,10 @@ Qed.
 Ltac nr := first [apply next_pc_nr | apply cont_flush_nr | (intros ? ?; discriminate) | discriminate].
 
 Lemma do_lookup_spec g (s : State) t p prog :
-  not_remove (t_pc (thr s t)) -> step_spec g s t (do_lookup cstate g s t p prog).
+  not_remove (t_pc (thr s t)) -> (forall p, t_pc (thr s t) <> PMiss p) ->
+  step_spec g s t (do_lookup cstate g s t p prog).
 Proof.
-  intros Hnr. unfold do_lookup.
+  intros Hnr Hnm. unfold do_lookup.
   destruct (lookup g (s_conns s) (p_key p)) as [[c fwd]|] eqn:EL; [|destruct (end_flag g p)];
     (eapply SpLocal; cbn; try reflexivity; try assumption; nr).
 Qed.
@@ -174,6 +228,7 @@ Proof.
   destruct (t_pc (thr s t)) eqn:Epc.
   - (* PStart *)
     assert (Hnr : not_remove (t_pc (thr s t))) by (rewrite Epc; intros ? ?; discriminate).
+    assert (Hnm : forall p, t_pc (thr s t) <> PMiss p) by (rewrite Epc; intros ?; discriminate).
     destruct (t_prog (thr s t)) as [|[p|] rest] eqn:Epr.
     + intros H; inversion H; subst; clear H. eapply SpLocal; cbn; try reflexivity; try assumption; nr.
     + destruct (ignored g p).
@@ -233,7 +288,7 @@ Proof.
     + destruct (match g_pkg g with Tcp => cclosed (c_st (obj' s c)) | Rsm => false end).
       * intros H; inversion H; subst; clear H.
         (* closed: retry; nothing shared changes *)
-        eapply SpLocal; cbn; try reflexivity; try nr. rewrite Epc; intros ? ?; discriminate.
+        eapply SpLocal; cbn; try reflexivity; try nr; rewrite Epc; [intros ? ?|intros ?]; discriminate.
       * destruct (process (c_st (obj' s c)) fwd p) as [[st' evs] closes] eqn:EPr.
         destruct closes; intros H; inversion H; subst; clear H.
         -- eapply SpProc with (closes := true); cbn; try eassumption; try reflexivity.
@@ -267,7 +322,7 @@ Proof.
     + destruct k; nr.
     + destruct k; nr.
   - (* PRetry *)
-    intros H; inversion H; subst; clear H. apply do_lookup_spec. rewrite Epc; intros ? ?; discriminate.
+    intros H; inversion H; subst; clear H. apply do_lookup_spec; rewrite Epc; [intros ? ?|intros ?]; discriminate.
   - discriminate.
   - discriminate.
 Qed.
@@ -346,7 +401,7 @@ Proof.
   intros I E. assert (Lt : t < length (s_thr s)).
   { apply enabled_lt. unfold exec in E. destruct (enabled' s t); [reflexivity|discriminate]. }
   destruct (exec_spec _ _ _ _ E) as
-    [th' Hc Hf Ho Hn Hk Hl Ht Hnr Hnp Hnr0
+    [th' Hc Hf Ho Hn Hk Hl Ht Hnr Hnp Hnr0 Hnm0
     |p th' c free' objs0 Hpc Hpop Hf Ho Hn Ht Hnr Hl Hcn Hpan
     |c w st' evs closes th' Hpc Hlk Hw Ho Hc Hf Hn Hk Ht Hcl Hncl Hnp
     |c k th' Hpc Ho Hcf Hn Hk Hl Ht Hnr Hnp]; intros c2 t2 Hs.
@@ -455,13 +510,13 @@ Proof.
   { apply enabled_lt. unfold exec in E. destruct (enabled' s t); [reflexivity|discriminate]. }
   intros t2. destruct (Nat.eq_dec t2 t) as [->|N].
   - destruct (exec_spec _ _ _ _ E) as
-      [th' _ _ _ _ _ _ Ht _ Hnp _
+      [th' _ _ _ _ _ _ Ht _ Hnp _ _
       |p th' c free' objs0 _ _ _ _ _ Ht _ _ _ Hpan
       |c w st' evs closes th' _ _ _ _ _ _ _ _ Ht _ _ Hnp
       |c k th' _ _ _ _ _ _ Ht _ Hnp]; rewrite (thr_upd_eq _ _ _ _ Lt Ht); try assumption.
     intros Hp. destruct (Hpan Hp) as [H1 H2]. rewrite H1, H2 in G. discriminate.
   - destruct (exec_spec _ _ _ _ E) as
-      [th' _ _ _ _ _ _ Ht _ _ _
+      [th' _ _ _ _ _ _ Ht _ _ _ _
       |p th' c free' objs0 _ _ _ _ _ Ht _ _ _ _
       |c w st' evs closes th' _ _ _ _ _ _ _ _ Ht _ _ _
       |c k th' _ _ _ _ _ _ Ht _ _]; rewrite (thr_upd_ne _ _ _ _ _ N Ht); apply I.
@@ -479,7 +534,7 @@ Lemma mutex_step g s t s' : exec' g s t = Some s' ->
 Proof.
   intros E t' sid c0 e Hin.
   destruct (exec_spec _ _ _ _ E) as
-    [th' _ _ _ _ _ Hl _ _ _ _
+    [th' _ _ _ _ _ Hl _ _ _ _ _
     |p th' c free' objs0 _ _ _ _ _ _ _ Hl _ _
     |c w st' evs closes th' Hpc Hlk Hw _ _ _ _ _ _ _ _ _
     |c k th' _ _ _ _ _ Hl _ _ _].
@@ -509,5 +564,291 @@ Proof.
   destruct (exec' g s t) as [s'|] eqn:E; [|apply IH; exact R].
   apply IH. eapply R_step; eassumption.
 Qed.
+
+(* ---------------------------------------------------------------- where the objects a thread will touch come from *)
+Lemma do_lookup_rest g (s : State) t p prog x :
+  t < length (s_thr s) ->
+  In x (rest_of_pc (t_pc (thr (do_lookup cstate g s t p prog) t))) -> In x (map snd (s_conns s)).
+Proof.
+  intros Lt. unfold do_lookup, thr; cbn [s_thr]. unfold set_thr. rewrite nth_upd_eq by assumption.
+  destruct (lookup g (s_conns s) (p_key p)) as [[c fwd]|] eqn:EL; cbn.
+  - intros [<-|[]]. eapply lookup_in; eassumption.
+  - destruct (end_flag g p); cbn [t_pc]; [rewrite rest_next_pc|]; cbn; tauto.
+Qed.
+
+Lemma exec_rest g (s : State) t s' : exec' g s t = Some s' ->
+  forall x, In x (rest_of_pc (t_pc (thr s' t))) ->
+    In x (rest_of_pc (t_pc (thr s t))) \/ In x (map snd (s_conns s)) \/
+    (exists p, t_pc (thr s t) = PMiss p /\ x = fst (fst (pop s))).
+Proof.
+  intros E. assert (Lt : t < length (s_thr s)).
+  { apply enabled_lt. unfold exec in E. destruct (enabled' s t); [reflexivity|discriminate]. }
+  revert E. unfold exec. destruct (enabled' s t); cbn [negb]; [|discriminate].
+  assert (Hthr : forall c f (o : list Conn) n k th l tg,
+     thr (mkSt c f o n k (set_thr cstate s t th) l tg) t = th).
+  { intros. unfold thr; cbn [s_thr]. unfold set_thr. apply nth_upd_eq; assumption. }
+  destruct (t_pc (thr s t)) eqn:Epc.
+  - destruct (t_prog (thr s t)) as [|[p|] rest] eqn:Epr.
+    + intros H; inversion H; subst; clear H. intros x. rewrite Hthr. cbn. tauto.
+    + destruct (ignored g p); intros H; inversion H; subst; clear H; intros x.
+      * rewrite Hthr. cbn [t_pc]. rewrite rest_next_pc. cbn. tauto.
+      * intros Hx. right; left. eapply do_lookup_rest; eassumption.
+    + intros H; inversion H; subst; clear H. intros x. rewrite Hthr. cbn [t_pc].
+      intros Hx. apply rest_cont_flush in Hx. apply in_sort_ids in Hx. auto.
+  - unfold pop. destruct (s_free s) as [|c f] eqn:Ef; cbn [fst];
+    (destruct (lookup g (s_conns s) (p_key p)) as [[c2 fwd2]|] eqn:EL;
+     [match goal with |- context[if ?b then _ else _] => destruct b end|]);
+    intros H; inversion H; subst; clear H; intros x; rewrite Hthr; cbn;
+    try tauto;
+    try (intros [<-|[]]; right; left; eapply lookup_in; eassumption);
+    try (intros [<-|[]]; right; right; eexists; split; reflexivity).
+  - destruct w as [p fwd|rest].
+    + destruct (match g_pkg g with Tcp => cclosed (c_st (obj' s c)) | Rsm => false end).
+      * intros H; inversion H; subst; clear H. intros x. rewrite Hthr. cbn. tauto.
+      * destruct (process (c_st (obj' s c)) fwd p) as [[st' evs] closes].
+        destruct closes; intros H; inversion H; subst; clear H; intros x; rewrite Hthr; cbn.
+        -- auto.
+        -- rewrite rest_next_pc. tauto.
+    + destruct (flush (c_st (obj' s c))) as [[st' evs] closes].
+      destruct closes; intros H; inversion H; subst; clear H; intros x; rewrite Hthr; cbn [t_pc].
+      * cbn. auto.
+      * intros Hx. apply rest_cont_flush in Hx. left. cbn. auto.
+  - intros H; inversion H; subst; clear H. intros x. rewrite Hthr. cbn [t_pc].
+    destruct k; cbn.
+    + rewrite rest_next_pc. tauto.
+    + intros Hx. apply rest_cont_flush in Hx. auto.
+  - intros H; inversion H; subst; clear H. intros x Hx. right; left. eapply do_lookup_rest; eassumption.
+  - discriminate.
+  - discriminate.
+Qed.
+
+(* ---------------------------------------------------------------- invariant: the pool *)
+Record inv_pool (g : config) (s : State) : Prop := mkIP {
+  ip_keys : NoDup (map fst (s_conns s));
+  ip_vals : NoDup (map snd (s_conns s));
+  ip_ent : forall k c, In (k, c) (s_conns s) -> c_key (obj' s c) = k /\ c < length (s_objs s);
+  ip_rev : is_rsm g = true -> forall k c, In (k, c) (s_conns s) -> assoc (key_rev k) (s_conns s) = None;
+  ip_free : NoDup (s_free s);
+  ip_free_ent : forall c, In c (s_free s) ->
+      ~ In c (map snd (s_conns s)) /\ c < length (s_objs s) /\ cclosed (c_st (obj' s c)) = true;
+  ip_rem : forall t c k, t_pc (thr s t) = PRemove c k ->
+      ~ In c (s_free s) /\ cclosed (c_st (obj' s c)) = true /\ c_lock (obj' s c) = Some t;
+  ip_range : forall t x, In x (rest_of_pc (t_pc (thr s t))) -> x < length (s_objs s) }.
+
+Lemma init_pc progs t :
+  t_pc (thr (init cstate progs) t) = PStart \/ t_pc (thr (init cstate progs) t) = PDone.
+Proof.
+  unfold thr, init; cbn.
+  destruct (Nat.lt_ge_cases t (length progs)) as [L|L].
+  - rewrite nth_indep with (d' := (fun pr => mkThr (next_pc pr) pr) []) by (rewrite map_length; assumption).
+    rewrite (map_nth (fun pr => mkThr (next_pc pr) pr)). cbn. unfold next_pc. destruct (nth t progs []); auto.
+  - rewrite nth_overflow by (rewrite map_length; assumption). auto.
+Qed.
+
+Lemma inv_pool_init g progs : inv_pool g (init cstate progs).
+Proof.
+  constructor; cbn [init s_conns s_free s_objs map]; try (constructor; fail);
+    try (intros; cbn in *; tauto).
+  - intros t0 c0 k0 H. destruct (init_pc progs t0) as [E|E]; rewrite E in H; discriminate.
+  - intros t0 x H. destruct (init_pc progs t0) as [E|E]; rewrite E in H; destruct H.
+Qed.
+
+Hypothesis Hm : machine_ok.
+
+Lemma proc_closed st h p st' ev b : process st h p = (st', ev, b) ->
+  (b = true -> cclosed st = false /\ cclosed st' = true) /\ (cclosed st = true -> cclosed st' = true).
+Proof. intros H. destruct Hm as [_ [Hp _]]. destruct (Hp _ _ _ _ _ _ H) as [A [B _]]. auto. Qed.
+Lemma flush_closed st st' ev b : flush st = (st', ev, b) ->
+  (b = true -> cclosed st = false /\ cclosed st' = true) /\ (cclosed st = true -> cclosed st' = true).
+Proof. intros H. destruct Hm as [_ [_ Hf]]. destruct (Hf _ _ _ _ H) as [A [B _]]. auto. Qed.
+
+Lemma inv_pool_step g s t s' : inv_pool g s -> exec' g s t = Some s' -> inv_pool g s'.
+Proof.
+  intros I E. assert (Lt : t < length (s_thr s)).
+  { apply enabled_lt. unfold exec in E. destruct (enabled' s t); [reflexivity|discriminate]. }
+  pose proof (exec_rest _ _ _ _ E) as Hrest.
+  destruct I as [Ik Iv Ie Ir If Ife Irm Irg].
+  destruct (exec_spec _ _ _ _ E) as
+    [th' Hc Hf Ho Hn Hk Hl Ht Hnr Hnp Hnr0 Hnm0
+    |p th' c free' objs0 Hpc Hpop Hf Ho Hn Ht Hnr Hl Hcn Hpan
+    |c w st' evs closes th' Hpc Hlk Hw Ho Hc Hf Hn Hk Ht Hcl Hncl Hnp
+    |c k th' Hpc Ho Hcf Hn Hk Hl Ht Hnr Hnp].
+  - (* local step *)
+    assert (Hobj : forall x, obj' s' x = obj' s x) by (intros x; apply obj_same; assumption).
+    constructor; try (rewrite ?Hc, ?Hf, ?Ho; assumption).
+    + intros k c Hin. rewrite Hc in Hin. rewrite Hobj, Ho. auto.
+    + intros c Hin. rewrite Hf in Hin. rewrite Hc, Hobj, Ho. auto.
+    + intros t2 c k Hp2. destruct (Nat.eq_dec t2 t) as [->|N].
+      * rewrite (thr_upd_eq _ _ _ _ Lt Ht) in Hp2. exfalso; exact (Hnr _ _ Hp2).
+      * rewrite (thr_upd_ne _ _ _ _ _ N Ht) in Hp2. rewrite Hf, Hobj. eauto.
+    + intros t2 x Hx. rewrite Ho. destruct (Nat.eq_dec t2 t) as [->|N].
+      * destruct (Hrest _ Hx) as [H|[H|[p [Hp _]]]].
+        -- eauto.
+        -- apply in_map_iff in H as [[k c] [<- Hin]]. apply (Ie _ _ Hin).
+        -- exfalso; exact (Hnm0 _ Hp).
+      * rewrite (thr_upd_ne _ _ _ _ _ N Ht) in Hx. eauto.
+  - (* miss: take an object, reset it, insert unless the race was lost *)
+    assert (Hfr : forall x, In x (s_free s) -> x < length (s_objs s)) by (intros x Hx; apply (Ife _ Hx)).
+    pose proof (miss_obj_len _ _ _ _ Hpop Hfr) as Lc.
+    pose proof (miss_len _ _ _ _ _ _ Hpop Ho) as Llen.
+    assert (Hlen' : length (s_objs s') = length objs0) by (rewrite Ho; apply upd_length).
+    assert (Hother : forall x, x <> c -> obj' s' x = obj' s x)
+      by (intros x N; eapply miss_obj_other; eassumption).
+    assert (Hnew : obj' s' c = mkConn (p_key p) (s_nsid s) cinit (c_lock (nth c objs0 blank')))
+      by (unfold obj; rewrite Ho; apply nth_upd_eq; assumption).
+    assert (Hcnot : ~ In c (map snd (s_conns s))).
+    { destruct (pop_cases _ _ _ _ Hpop) as [[Ef _]|[_ [_ [-> _]]]].
+      - apply Ife. rewrite Ef; left; reflexivity.
+      - intros Hin. apply in_map_iff in Hin as [[k0 c0] [E0 Hin]]. cbn in E0; subst.
+        destruct (Ie _ _ Hin) as [_ L]. lia. }
+    assert (Hfree' : forall x, In x free' -> In x (s_free s) /\ x <> c).
+    { intros x Hx. destruct (pop_cases _ _ _ _ Hpop) as [[Ef _]|[_ [-> _]]]; [|destruct Hx].
+      rewrite Ef in *. inversion If; subst. split; [right; assumption|]. intros ->. contradiction. }
+    assert (Hfnd : NoDup free').
+    { destruct (pop_cases _ _ _ _ Hpop) as [[Ef _]|[_ [-> _]]]; [|constructor].
+      rewrite Ef in If. inversion If; assumption. }
+    assert (Hpcs : forall t2 c2 k2, t_pc (thr s' t2) = PRemove c2 k2 -> t2 <> t /\ t_pc (thr s t2) = PRemove c2 k2).
+    { intros t2 c2 k2 Hp2. destruct (Nat.eq_dec t2 t) as [->|N].
+      - rewrite (thr_upd_eq _ _ _ _ Lt Ht) in Hp2. exfalso; exact (Hnr _ _ Hp2).
+      - rewrite (thr_upd_ne _ _ _ _ _ N Ht) in Hp2. auto. }
+    assert (Hrange : forall t2 x, In x (rest_of_pc (t_pc (thr s' t2))) -> x < length (s_objs s')).
+    { intros t2 x Hx. destruct (Nat.eq_dec t2 t) as [->|N].
+      - destruct (Hrest _ Hx) as [H|[H|[p0 [_ Hp0]]]].
+        + specialize (Irg _ _ H). lia.
+        + apply in_map_iff in H as [[k0 c0] [<- Hin]]. destruct (Ie _ _ Hin). cbn; lia.
+        + rewrite Hpop in Hp0. cbn in Hp0. subst. lia.
+      - rewrite (thr_upd_ne _ _ _ _ _ N Ht) in Hx. specialize (Irg _ _ Hx). lia. }
+    assert (Hrem : forall t2 c2 k2, t_pc (thr s' t2) = PRemove c2 k2 ->
+               ~ In c2 free' /\ cclosed (c_st (obj' s' c2)) = true /\ c_lock (obj' s' c2) = Some t2).
+    { intros t2 c2 k2 Hp2. destruct (Hpcs _ _ _ Hp2) as [N Hp3].
+      destruct (Irm _ _ _ Hp3) as [A [B C]].
+      assert (c2 <> c).
+      { intros ->. destruct (pop_cases _ _ _ _ Hpop) as [[Ef _]|[_ [_ [Ec _]]]].
+        - apply A. rewrite Ef; left; reflexivity.
+        - unfold obj in C. rewrite nth_overflow in C by lia. discriminate. }
+      rewrite Hother by assumption. split; [|auto]. intros Hin. apply A. apply Hfree'. assumption. }
+    destruct Hcn as [[HL [Hc Hk]]|[HL [Hc Hk]]].
+    + (* inserted *)
+      destruct (lookup_none _ _ _ HL) as [HA HR].
+      constructor; try assumption.
+      * rewrite Hc. cbn. constructor; [apply assoc_none_keys; assumption|assumption].
+      * rewrite Hc. cbn. constructor; assumption.
+      * intros k0 c0 Hin. rewrite Hc in Hin. destruct Hin as [Hin|Hin].
+        -- inversion Hin; subst. rewrite Hnew. cbn. split; [reflexivity|lia].
+        -- destruct (Ie _ _ Hin) as [A B]. rewrite Hother; [split; [assumption|lia]|].
+           intros ->. apply Hcnot. apply in_map_iff. exists (k0, c); auto.
+      * intros G k0 c0 Hin. rewrite Hc in *. destruct Hin as [Hin|Hin].
+        -- inversion Hin; subst. cbn. destruct (key_eqb (key_rev (p_key p)) (p_key p)) eqn:Ek.
+           ++ apply key_eqb_eq in Ek. exfalso; exact (key_rev_neq _ Ek).
+           ++ auto.
+        -- cbn. destruct (key_eqb (key_rev k0) (p_key p)) eqn:Ek.
+           ++ apply key_eqb_eq in Ek. exfalso.
+              assert (k0 = key_rev (p_key p)) by (rewrite <- Ek; symmetry; apply key_rev_invol).
+              subst k0. exact (in_assoc_some _ _ _ Hin (HR G)).
+           ++ eauto.
+      * rewrite Hf; assumption.
+      * intros x Hx. rewrite Hf in Hx. destruct (Hfree' _ Hx) as [Hx0 N].
+        destruct (Ife _ Hx0) as [A [B C]]. rewrite Hc, Hother by assumption. cbn.
+        split; [intros [H|H]; [congruence|contradiction]|]. split; [lia|assumption].
+      * intros t2 c2 k2 Hp2. rewrite Hf. eauto.
+    + (* race lost (or panic): the object is dropped *)
+      constructor; try (rewrite ?Hc; assumption).
+      * intros k0 c0 Hin. rewrite Hc in Hin. destruct (Ie _ _ Hin) as [A B].
+        rewrite Hother; [split; [assumption|lia]|].
+        intros ->. apply Hcnot. apply in_map_iff. exists (k0, c); auto.
+      * rewrite Hf; assumption.
+      * intros x Hx. rewrite Hf in Hx. destruct (Hfree' _ Hx) as [Hx0 N].
+        destruct (Ife _ Hx0) as [A [B C]]. rewrite Hc, Hother by assumption.
+        split; [assumption|]. split; [lia|assumption].
+      * intros t2 c2 k2 Hp2. rewrite Hf. eauto.
+  - (* processing under the connection lock *)
+    assert (Lc : c < length (s_objs s)) by (apply (Irg t); rewrite Hpc; destruct w; left; reflexivity).
+    assert (Hother : forall x, x <> c -> obj' s' x = obj' s x) by (intros x N; eapply obj_upd_ne; eassumption).
+    pose proof (obj_upd_eq _ _ _ _ Lc Ho) as Hnew.
+    assert (Hlen' : length (s_objs s') = length (s_objs s)) by (rewrite Ho; apply upd_length).
+    assert (Hcl2 : (closes = true -> cclosed (c_st (obj' s c)) = false /\ cclosed st' = true) /\
+                   (cclosed (c_st (obj' s c)) = true -> cclosed st' = true)).
+    { destruct Hw as [[p [fwd [_ [Hp _]]]]|[rest [_ [Hp _]]]];
+        [apply (proc_closed _ _ _ _ _ _ Hp)|apply (flush_closed _ _ _ _ Hp)]. }
+    destruct Hcl2 as [Hcl2 Hcl3].
+    assert (Hkey : forall x, c_key (obj' s' x) = c_key (obj' s x)).
+    { intros x. destruct (Nat.eq_dec x c) as [->|N]; [rewrite Hnew; reflexivity|rewrite Hother; auto]. }
+    constructor; try (rewrite ?Hc, ?Hf; assumption).
+    + intros k0 c0 Hin. rewrite Hc in Hin. rewrite Hkey, Hlen'. auto.
+    + intros x Hx. rewrite Hf in Hx. destruct (Ife _ Hx) as [A [B C]]. rewrite Hc, Hlen'.
+      split; [assumption|]. split; [assumption|].
+      destruct (Nat.eq_dec x c) as [->|N]; [rewrite Hnew; cbn; auto|rewrite Hother; assumption].
+    + intros t2 c2 k2 Hp2. rewrite Hf. destruct (Nat.eq_dec t2 t) as [->|N].
+      * rewrite (thr_upd_eq _ _ _ _ Lt Ht) in Hp2.
+        destruct closes; [|exfalso; exact (Hncl eq_refl _ _ Hp2)].
+        destruct (Hcl eq_refl) as [k3 Hk3]. rewrite Hk3 in Hp2. inversion Hp2; subst.
+        destruct (Hcl2 eq_refl) as [A B]. rewrite Hnew. cbn. split; [|auto].
+        intros Hin. destruct (Ife _ Hin) as [_ [_ C]]. congruence.
+      * rewrite (thr_upd_ne _ _ _ _ _ N Ht) in Hp2. destruct (Irm _ _ _ Hp2) as [A [B C]].
+        assert (c2 <> c) by (intros ->; congruence).
+        rewrite Hother by assumption. auto.
+    + intros t2 x Hx. rewrite Hlen'. destruct (Nat.eq_dec t2 t) as [->|N].
+      * destruct (Hrest _ Hx) as [H|[H|[p0 [Hp0 _]]]].
+        -- eauto.
+        -- apply in_map_iff in H as [[k0 c0] [<- Hin]]. apply (Ie _ _ Hin).
+        -- rewrite Hpc in Hp0. discriminate.
+      * rewrite (thr_upd_ne _ _ _ _ _ N Ht) in Hx. eauto.
+  - (* remove *)
+    destruct (Irm _ _ _ Hpc) as [Rnf [Rcl Rlk]].
+    assert (Lc : c < length (s_objs s)) by (apply (Irg t); rewrite Hpc; destruct k; left; reflexivity).
+    assert (Hother : forall x, x <> c -> obj' s' x = obj' s x) by (intros x N; eapply obj_upd_ne; eassumption).
+    pose proof (obj_upd_eq _ _ _ _ Lc Ho) as Hnew.
+    assert (Hlen' : length (s_objs s') = length (s_objs s)) by (rewrite Ho; apply upd_length).
+    assert (Hkey : forall x, c_key (obj' s' x) = c_key (obj' s x)).
+    { intros x. destruct (Nat.eq_dec x c) as [->|N]; [rewrite Hnew; reflexivity|rewrite Hother; auto]. }
+    assert (Hst : forall x, c_st (obj' s' x) = c_st (obj' s x)).
+    { intros x. destruct (Nat.eq_dec x c) as [->|N]; [rewrite Hnew; reflexivity|rewrite Hother; auto]. }
+    assert (Hpcs : forall t2 c2 k2, t_pc (thr s' t2) = PRemove c2 k2 ->
+              t2 <> t /\ t_pc (thr s t2) = PRemove c2 k2 /\ c2 <> c).
+    { intros t2 c2 k2 Hp2. destruct (Nat.eq_dec t2 t) as [->|N].
+      - rewrite (thr_upd_eq _ _ _ _ Lt Ht) in Hp2. exfalso; exact (Hnr _ _ Hp2).
+      - rewrite (thr_upd_ne _ _ _ _ _ N Ht) in Hp2. split; [assumption|]. split; [assumption|].
+        intros ->. destruct (Irm _ _ _ Hp2) as [_ [_ C]]. congruence. }
+    assert (Hrange : forall t2 x, In x (rest_of_pc (t_pc (thr s' t2))) -> x < length (s_objs s')).
+    { intros t2 x Hx. rewrite Hlen'. destruct (Nat.eq_dec t2 t) as [->|N].
+      - destruct (Hrest _ Hx) as [H|[H|[p0 [Hp0 _]]]].
+        + eauto.
+        + apply in_map_iff in H as [[k0 c0] [<- Hin]]. apply (Ie _ _ Hin).
+        + rewrite Hpc in Hp0. discriminate.
+      - rewrite (thr_upd_ne _ _ _ _ _ N Ht) in Hx. eauto. }
+    destruct Hcf as [[Hc Hf]|[Hc Hf]].
+    + (* reassembly: key absent, nothing happens *)
+      constructor; try (rewrite ?Hc, ?Hf; assumption).
+      * intros k0 c0 Hin. rewrite Hc in Hin. rewrite Hkey, Hlen'. auto.
+      * intros x Hx. rewrite Hf in Hx. rewrite Hc, Hlen', Hst. auto.
+      * intros t2 c2 k2 Hp2. destruct (Hpcs _ _ _ Hp2) as [N [Hp3 Nc]].
+        rewrite Hf, Hother by assumption. eauto.
+    + (* entry of the object's key deleted, object pushed on the free list (when recycling) *)
+      assert (Hsub : forall k0 c0, In (k0, c0) (s_conns s') -> In (k0, c0) (s_conns s) /\ k0 <> c_key (obj' s c)).
+      { intros k0 c0 Hin. rewrite Hc in Hin. apply in_remove_assoc in Hin. tauto. }
+      assert (Hcgone : ~ In c (map snd (s_conns s'))).
+      { intros Hin. apply in_map_iff in Hin as [[k0 c0] [E0 Hin]]. cbn in E0; subst c0.
+        destruct (Hsub _ _ Hin) as [Hin0 Nk]. destruct (Ie _ _ Hin0) as [A _]. congruence. }
+      assert (Hvsub : forall x, In x (map snd (s_conns s')) -> In x (map snd (s_conns s))).
+      { intros x Hx. rewrite Hc in Hx. eapply map_remove_assoc_in; eassumption. }
+      constructor; try assumption.
+      * rewrite Hc. apply nodup_map_remove_assoc; assumption.
+      * rewrite Hc. apply nodup_map_remove_assoc; assumption.
+      * intros k0 c0 Hin. destruct (Hsub _ _ Hin) as [Hin0 _]. rewrite Hkey, Hlen'. auto.
+      * intros G k0 c0 Hin. destruct (Hsub _ _ Hin) as [Hin0 _]. rewrite Hc.
+        apply assoc_remove_none. eauto.
+      * destruct Hf as [Hf|[Hf _]]; rewrite Hf; [constructor; assumption|assumption].
+      * intros x Hx. rewrite Hlen', Hst.
+        assert (Hx2 : x = c \/ In x (s_free s)) by (destruct Hf as [Hf|[Hf _]]; rewrite Hf in Hx; [destruct Hx; auto|auto]).
+        destruct Hx2 as [->|Hx2].
+        -- split; [assumption|]. split; assumption.
+        -- destruct (Ife _ Hx2) as [A [B C]]. split; [intros H; apply A; auto|]. split; assumption.
+      * intros t2 c2 k2 Hp2. destruct (Hpcs _ _ _ Hp2) as [N [Hp3 Nc]].
+        destruct (Irm _ _ _ Hp3) as [A [B C]]. rewrite Hother by assumption. split; [|auto].
+        destruct Hf as [Hf|[Hf _]]; rewrite Hf; [intros [H|H]; [congruence|contradiction]|assumption].
+Qed.
+
+Lemma inv_pool_reachable g progs s : reachable g progs s -> inv_pool g s.
+Proof. induction 1; [apply inv_pool_init|eapply inv_pool_step; eassumption]. Qed.
 
 End Proofs.
